@@ -366,9 +366,14 @@ func (g *Gen) verifyFunc(ct *Contract) (fg *FnGen, err error) {
 			}
 		}
 	}
-	for _, fv := range fn.FreeVars {
+	for i, fv := range fn.FreeVars {
 		t := fg.val(fr, fv)
 		fg.paramEnv[fv.Name()] = CVal{T: t, Ty: fv.Type()}
+		// a captured variable that neither the enclosing function's callees nor any of its closures can write keeps its
+		// content across the calls made by this closure
+		if pt, ok := fv.Type().Underlying().(*types.Pointer); ok && freeVarReadOnly(fn, i) {
+			fg.stackCells = append(fg.stackCells, stackCell{ref: t, ty: pt.Elem()})
+		}
 	}
 	env := fg.baseEnv(fr, st)
 	for _, r := range ct.Requires {
